@@ -69,17 +69,15 @@ def _sync_transport_cls() -> Any:
 
 
 def _malformed(entry: serializers.Entry, valid: bytes, rng: random.Random) -> bytes | None:
-    """A mutation of a valid payload that the one-shot parser rejects (None if none of a few tries is rejected)."""
-    from easynetwork.exceptions import DatagramProtocolParseError
-
+    """A mutation of a valid payload that the one-shot parser does not accept (None if every one of a few tries is accepted).  A payload on
+    which the parser fails with anything else than a parse error is kept too: the endpoint has to answer it with exactly one parse error
+    like any other malformed datagram (if it does not, the receive is logged as a crash, which the specification has no action for)."""
     proto = entry.datagram_protocol()
     for cand in mutate.mutations(valid, rng, 8):
         try:
             proto.build_packet_from_datagram(cand)
-        except DatagramProtocolParseError:
+        except Exception:  # noqa: BLE001
             return cand
-        except Exception:  # noqa: BLE001 - C06's business; here we only need a datagram known to be malformed
-            continue
     return None
 
 
@@ -206,6 +204,8 @@ def scenario_udp(entry: serializers.Entry, seed: int) -> dict[str, Any]:
 
     rng = random.Random(seed)
     packets, plan = _script(entry, rng)
+    use_iter = rng.random() < 0.5
+    it: Any = None
     a, b = harness.loopback_udp_pair()
     a.setblocking(True)
     client = UDPNetworkClient(a, entry.datagram_protocol())
@@ -231,17 +231,26 @@ def scenario_udp(entry: serializers.Entry, seed: int) -> dict[str, Any]:
                 events.append({"ev": "inject"})
                 b.send(arg if arg else b"\x00")
             try:
-                pkt = client.recv_packet(timeout=2)
+                if use_iter:
+                    # one iterator kept across parse errors: an error reported by it must not end it
+                    if it is None:
+                        it = client.iter_received_packets(timeout=2)
+                    pkt = next(it)
+                else:
+                    pkt = client.recv_packet(timeout=2)
                 idx = next((i + 1 for i, p in enumerate(packets) if entry.eq(pkt, p)), 0)
                 events.append({"ev": "recv", "kind": "pkt", "id": idx, "ok": idx > 0})
             except DatagramProtocolParseError:
                 events.append({"ev": "recv", "kind": "err"})
+            except StopIteration:
+                events.append({"ev": "recv", "kind": "oserr"})  # (ends on OSError only: there is none in this scenario)
+                it = None
             except Exception as exc:  # noqa: BLE001
                 events.append({"ev": "recv", "kind": "crash:" + type(exc).__name__})
     finally:
         client.close()
         b.close()
-    return {"events": traces.uniform(events, EVD), "meta": f"UDPNetworkClient {entry.name} seed={seed} packets={packets!r:.80}"}
+    return {"events": traces.uniform(events, EVD), "meta": f"UDPNetworkClient{'(kept iterator)' if use_iter else ''} {entry.name} seed={seed} packets={packets!r:.80}"}
 
 
 def _asyncio_protocol_of(client: Any) -> Any:
@@ -274,10 +283,22 @@ async def _scenario_async_udp(entry: serializers.Entry, seed: int) -> dict[str, 
     events: list[dict[str, Any]] = []
     pending = 0  # datagrams + errors the client has not consumed yet
 
+    use_iter = rng.random() < 0.5
+    itbox: list[Any] = [None]
+
     async def recv() -> None:
         try:
-            with backend.timeout(5):
-                pkt = await client.recv_packet()
+            if use_iter:
+                if itbox[0] is None:
+                    itbox[0] = client.iter_received_packets(timeout=5)
+                pkt = await anext(itbox[0])
+            else:
+                with backend.timeout(5):
+                    pkt = await client.recv_packet()
+        except StopAsyncIteration:
+            # by design the iterator ends on an OSError of recv_packet(): that is how a reported socket error comes out of it
+            events.append({"ev": "recv", "kind": "oserr"})
+            itbox[0] = None
         except DatagramProtocolParseError:
             events.append({"ev": "recv", "kind": "err"})
         except TimeoutError:
@@ -323,7 +344,7 @@ async def _scenario_async_udp(entry: serializers.Entry, seed: int) -> dict[str, 
     finally:
         await client.aclose()
         b.close()
-    return {"events": traces.uniform(events, EVD), "meta": f"AsyncUDPNetworkClient {entry.name} seed={seed} packets={packets!r:.80}"}
+    return {"events": traces.uniform(events, EVD), "meta": f"AsyncUDPNetworkClient{'(kept iterator)' if use_iter else ''} {entry.name} seed={seed} packets={packets!r:.80}"}
 
 
 def scenario_big(family: str, flavour: str, size: int) -> dict[str, Any]:  # size = 0: the empty datagram
